@@ -4,6 +4,7 @@ from __future__ import annotations
 import json
 import os
 import random
+import re
 import shutil
 import stat
 import subprocess
@@ -25,7 +26,9 @@ signature.  Invalid inputs (syntax error, missing derivative, undefined symbol, 
 rejected by load_ode) must give a non-zero exit and no new file.  Sub-commands ode2py, ode2c, convert, cellml2ode; options
 --scheme (all 5 members, repeated), -s/--stiff-states, --delta, --remove-unused, --format none|black|ruff / none|clang-format,
 --backend, --jax, -o, --to, -v, --config file and pyproject.toml ([tool.gotranx] scheme/delta/stiff_states/verbose, .python
-format/backend, .c to/format).  clang-format is absent on this machine: ode2c/convert-to-C cases that need it run with a fake
+format/backend, .c to/format; also the legal but falsy values delta = 0.0, stiff_states = [], scheme = [], verbose = false while the command line
+gives other values: the expected output is the API text for the configuration values, and with a `verbose` key in the configuration file DEBUG
+log lines must appear iff that value is true).  clang-format is absent on this machine: ode2c/convert-to-C cases that need it run with a fake
 `clang-format` (prefixes a marker line) first on PATH for both the CLI and the API; `ode2c --format none` is also run in the
 real environment where it must not need clang-format.  Models: lorentz.ode, fitzhughnagumo.ode, a hand-written model with unused
 names, modelgen models with 1-3 states (quick 3, thorough 12 per seed), noble_1962.cellml.  Quick: a covering set (~190 runs:
@@ -98,6 +101,7 @@ def atoms(cmd, st, flip=0):
                   ("config-python.format", {}, {"mode": mode, "data": {"python": {"format": "black"}}}),
                   ("config-python.backend", {}, {"mode": mode, "data": {"python": {"backend": "jax"}}}),
                   ("config-scheme", {"scheme": ["explicit_euler"], "delta": 0.25}, {"mode": mode, "data": {"scheme": ["hybrid_rush_larsen"], "stiff_states": [s2], "delta": 0.125, "verbose": True}})]
+            A += falsy_atoms(mode, s1, s2)
     if cmd == "ode2c":
         A += [("to", {"to": ".c"}, None), ("to", {"to": ".h"}, None), ("format", {"format": "clang-format"}, None), ("format", {"format": "none"}, None), ("outname", {"outname": "res.h"}, None),
               ("to", {"to": ".c", "outname": "res"}, None)]
@@ -107,6 +111,7 @@ def atoms(cmd, st, flip=0):
                   ("config-stiff_states", {"scheme": ["hybrid_rush_larsen"]}, {"mode": mode, "data": {"stiff_states": [s1]}}),
                   ("config-c.to", {}, {"mode": mode, "data": {"c": {"to": ".c"}}}), ("config-c.format", {}, {"mode": mode, "data": {"c": {"format": "none"}}}),
                   ("config-c.format", {"format": "none"}, {"mode": mode, "data": {"c": {"format": "clang-format"}}})]
+            A += falsy_atoms(mode, s1, s2)
     if cmd == "convert":
         A += [("to", {"to": ".py"}, None), ("to", {"to": ".c"}, None), ("to", {"to": ".h"}, None), ("to", {"to": "py"}, None), ("to", {"to": "python"}, None), ("to", {"to": "c"}, None),
               ("jax", {"to": ".py", "jax": True}, None), ("jax", {"outname": "jaxmod.py", "jax": True}, None), ("outname", {"outname": "res.py"}, None), ("outname", {"outname": "res.c"}, None)]
@@ -116,6 +121,15 @@ def atoms(cmd, st, flip=0):
             A[i] = (tag, o, dict(cfg, mode=modes[j % 2]))
             j += 1
     return A
+
+
+def falsy_atoms(mode, s1, s2):
+    """configuration values that are legal but falsy (0.0, [], false) must override the command line like any other value"""
+    return [("config-delta", {"scheme": ["generalized_rush_larsen"], "delta": 0.001}, {"mode": mode, "data": {"delta": 0.0}}),
+            ("config-stiff_states", {"scheme": ["hybrid_rush_larsen"], "stiff": [s1]}, {"mode": mode, "data": {"stiff_states": []}}),
+            ("config-scheme", {"scheme": ["explicit_euler", "generalized_rush_larsen"]}, {"mode": mode, "data": {"scheme": []}}),
+            ("config-verbose", {"verbose": True}, {"mode": mode, "data": {"verbose": False}}),
+            ("config-delta", {"scheme": ["hybrid_rush_larsen", "generalized_rush_larsen"], "stiff": [s2], "delta": 0.25, "verbose": True}, {"mode": mode, "data": {"stiff_states": [], "delta": 0.0, "verbose": False}})]
 
 
 def mk(cmd, model, opts, config=None, env="real", tag=None, invalid=None):
@@ -478,6 +492,13 @@ def _check(case, res, top):
         add(f"C18:{cmd}:crash:{culprit}" if culprit else f"C18:{cmd}:nonzero-exit", f"non-zero exit code for a valid model and valid options" + (f" (exit 0 without/with default `{culprit}`)" if culprit else ""),
             0, r.returncode, err)
         return
+    if cmd in ("ode2py", "ode2c") and cfg and "verbose" in (cfg.get("data") or {}) and cfg["mode"] != "pyproject-bare":
+        # verbose only changes the log level: DEBUG lines appear iff the effective value (configuration file over command line) is true
+        want_v = bool(cfg["data"]["verbose"])
+        has_dbg = re.search(r"\[debug\s*\]", r.stdout + r.stderr) is not None
+        if has_dbg != want_v:
+            add(f"C18:{cmd}:config-verbose-not-honoured", f"verbose = {'true' if want_v else 'false'} in the configuration file, command line {'-v' if o.get('verbose') else 'without -v'}: "
+                f"DEBUG log lines are {'present' if has_dbg else 'absent'}", want_v, has_dbg, tail(r))
     if expname not in new:
         others = [n for n in new if n != expname]
         if not others:
